@@ -1,8 +1,9 @@
 (* uses: lib_irwire.ml *)
-(* Driver of the taint engine (C09).  Line: `new|old <cfg sexp> <branches sexp>`
+(* Driver of the taint engine (C09).  Line: `new|old <cfg sexp> <branches sexp> [<idom sexp>]`
    (`old` = the side-effect analysis before the repair of C09-single-name-constraint).
    Prints `(result (universe ..) (taint ..) (closure ..) (cons ..) (ccl ..) (constrained ..)
-   (defs ..) (decls ..) (sinks ..) (findings ..) (wf 0|1))` in the format of harness/src/bin/taint.rs,
+   (defs ..) (decls ..) (sinks ..) (findings ..) (wf 0|1) (ud 0|1) (ssa 0|1|-))` in the format of
+   harness/src/bin/taint.rs (wf: ssa_wf_b; ud: nodup_v (all_defs g); ssa: ssa_check g idom, `-` without idom),
    or (outoffuel) / (panic) / (err). *)
 open Datatypes
 open Base
@@ -52,10 +53,16 @@ let line l =
   let sp = Stdlib.String.index l ' ' in
   let mode = Stdlib.String.sub l 0 sp in
   let rest = "(" ^ Stdlib.String.sub l (sp + 1) (Stdlib.String.length l - sp - 1) ^ ")" in
+  let r_idom = function
+    | L (A "idom" :: ds) -> Stdlib.List.map (function A "-" -> None | x -> Some (num_n x)) ds
+    | x -> failwith ("idom: " ^ show_sexp x) in
   match parse_sexp rest with
-  | L [c; b] ->
+  | L (c :: b :: more) when Stdlib.List.length more <= 1 ->
     let g = r_cfg c in
     let br = r_branches b in
+    let ssa = match more with
+      | [i] -> if SsaCheck.ssa_check g (r_idom i) then "1" else "0"
+      | _ -> "-" in
     run_side_effect_analysis_with (mode <> "old") g br >>= fun r ->
     let tm = r.r_taint.t_edges in
     let cm = r.r_cons in
@@ -76,7 +83,10 @@ let line l =
       L (A "sinks" :: w_vars (canon r.r_sinks));
       L (A "findings" :: Stdlib.List.map w_finding r.r_findings);
       (* hypotheses of C09_noninterference, evaluated on this cfg (model side only) *)
-      L [A "wf"; A (if ssa_wf_b g then "1" else "0")]])
+      L [A "wf"; A (if ssa_wf_b g then "1" else "0")];
+      (* hypotheses of C09_location_is_unique_definition(_nodup), evaluated on this cfg *)
+      L [A "ud"; A (if SsaCheck.nodup_v (SsaCheck.all_defs g) then "1" else "0")];
+      L [A "ssa"; A ssa]])
   | _ -> "(badline)"
 
 let () = each_line line
